@@ -255,6 +255,9 @@ class Check:
         self.deadline = self.t0 + self.budget
         os.makedirs(REPLAYS, exist_ok=True)
         os.makedirs(EVID, exist_ok=True)
+        for f in os.listdir(REPLAYS):
+            if f.startswith(pid + "-"):
+                os.unlink(os.path.join(REPLAYS, f))
 
     def time_left(self):
         return self.deadline - time.time()
@@ -268,9 +271,12 @@ class Check:
                       flush=True)
             self.seen_known[key] += 1
             return False
+        if key in self.violations:
+            self.violations.append(key)
+            return True
         self.nrep += 1
         path = os.path.join(REPLAYS, "%s-%d.json" % (self.pid, self.nrep))
-        if len(self.violations) < 50:
+        if self.nrep <= 40:
             with open(path, "w") as f:
                 json.dump({"property": self.pid, "key": key, "what": what, "replay": replay}, f, indent=1)
             print("VIOLATION property=%s replay=%s" % (self.pid, path), flush=True)
